@@ -81,7 +81,7 @@ def vs_to_coq(c, fname):
     obs = L("(%s, %s, %s, %s)" % (S(s["id"]), L(S(x) for x in s.get("entry") or []), C.cq_bool(s["err"]),
                                    L(S(x) for x in s.get("flags") or [])) for s in o["scopes"])
     ssl = o.get("ssl") or {}
-    return "vs_case %d %s %s %s %s %s %s %s %s %s %s %s %s %s %s %s" % (
+    return "vs_case %d %s %s %s %s %s %s %s %s %s %s %s %s %s %s %s %s" % (
         c["id"], S(w.get("class")), cluster, secrets, appols, logconfs, bundles, cq_tls(vs["tls"], vs.get("tls_secret")),
         C.cq_bool(w.get("wildcard", False)), v, S(vs["host"]), obs, C.cq_bool(ssl.get("present", False)),
         C.cq_bool(ssl.get("reject", False)), S(ssl.get("cert")), C.cq_bool(spiffe_in(c)), fname)
@@ -95,7 +95,7 @@ def ing_to_coq(c, fname):
     a = a[0] if a else {}
     ssl = o.get("ssl") or {}
     opt = lambda on, v: "(Some %s)" % S(v) if on else "None"
-    return "ing_case %d %s %s %s %s %s %s %s %s %s %s %s %s %s %s" % (
+    return "ing_case %d %s %s %s %s %s %s %s %s %s %s %s %s %s %s %s" % (
         c["id"], secrets, S(ing["ns"]), S(ing["host"]), cq_tls(ing["tls"], ing.get("tls_secret")), C.cq_bool(w.get("wildcard", False)),
         opt(bool(ing.get("jwt_key")), ing.get("jwt_key")), opt(bool(ing.get("basic")), ing.get("basic")),
         L([S("/m")] if where != "server" else []), C.cq_bool(ssl.get("present", False)), C.cq_bool(ssl.get("reject", False)),
